@@ -4,6 +4,7 @@ package checks
 
 import (
 	"fmt"
+	"go/types"
 	"sort"
 	"strings"
 	"sync"
@@ -23,6 +24,9 @@ type Ctx struct {
 
 	armsOnce sync.Once
 	arms     []*engine.ArmResult
+
+	stepOnce sync.Once
+	step     *stepAnalysis
 }
 
 // Arms runs (once) the comparison of every opcode-byte prefix.
@@ -198,6 +202,8 @@ func armAnalysed(cx *Ctx, r *ev.Report) {
 	sort.Strings(fs)
 	r.Extra["functions"] = shortFuncs(fs)
 }
+
+func ptrTo(t types.Type) types.Type { return types.NewPointer(t) }
 
 func isStateLike(d engine.Diff) bool {
 	return d.Cat == "state" || d.Cat == "frame" || d.Cat == "effect" || d.Cat == "catalogue"
